@@ -1,9 +1,9 @@
 package main
 
 import (
-	"math"
 	"fmt"
 	"github.com/uber-go/tally/v4/m3"
+	"math"
 	"strings"
 	"time"
 
